@@ -216,6 +216,13 @@ fn model_space(tier: Tier) -> Vec<ModelCfg> {
             out.push(ModelCfg { layers: layers.clone(), cost: CostK::Mse, lr: 0.25, salt, inputs: inputs.clone() });
         }
     }
+    out.push(ModelCfg {
+        layers: vec![LayerCfg::Conv { count: 17, depth: 1, fr: 2, fc: 2, sr: 1, sc: 1, act: Act::None }],
+        cost: CostK::Mse,
+        lr: 0.25,
+        salt: 13,
+        inputs: vec![vec![1, 63, 64]],
+    });
     for (layers, inputs) in [
         (vec![conv1.clone()], vec![vec![1, 3, 3], vec![2, 1, 3, 3], vec![1, 1, 3, 3]]),
         (vec![conv1s.clone()], vec![vec![2, 4, 3], vec![2, 2, 4, 3]]),
@@ -244,7 +251,8 @@ pub fn explore(opts: &Opts) -> Explored {
         let mut observed: HashMap<Vec<Iter>, Vec<T>> = HashMap::new();
         observed.insert(vec![], init.clone());
         let mut frontier: Vec<Vec<Iter>> = vec![vec![]];
-        for depth in 1..=max_len {
+        let huge = m.inputs.iter().any(|d| numel(d) > 2000);
+        for depth in 1..=(if huge { 1 } else { max_len }) {
             let mut next = Vec::new();
             for h in &frontier {
                 let irregular_used = h.iter().any(|i| i.kind != Kind::Regular);
